@@ -559,6 +559,7 @@ func main() {
 		sort.Strings(files)
 		skel.WriteString("namespace " + p.name + "\n\n")
 		consts.WriteString("namespace " + p.name + "\n\n")
+		declText := []string{}
 		for _, f := range files {
 			base := filepath.Base(f)
 			if strings.HasSuffix(base, "_test.go") || strings.HasPrefix(base, "verif_") || base == "palettes.go" {
@@ -616,6 +617,9 @@ func main() {
 					skel.WriteString("]\n")
 					fmt.Fprintf(&skel, "def %s_lits : List String := %s\n\n", id, leanStrList(lits))
 				case *ast.GenDecl:
+					if x.Tok != token.IMPORT {
+						declText = append(declText, pr(x))
+					}
 					if x.Tok == token.TYPE {
 						for _, sp := range x.Specs {
 							ts, ok := sp.(*ast.TypeSpec)
@@ -670,6 +674,9 @@ func main() {
 				}
 			}
 		}
+		// all package-level type / var / const declarations of the package (source order, file by file)
+		dh := sha256.Sum256([]byte(strings.Join(declText, "\x1e")))
+		hashes = append(hashes, [2]string{p.name + ".#decls", hex.EncodeToString(dh[:])[:16]})
 		skel.WriteString("end " + p.name + "\n\n")
 		consts.WriteString("\nend " + p.name + "\n\n")
 	}
